@@ -387,6 +387,9 @@ theorem C08_next_start_emits (t : Bytes → Bool) (s : St) (l : Bytes) (h10 : 10
 
 /-- the reader's buffer holds at least three records of maximal length (`newMultiLineReader`) -/
 theorem C08_fact_buffer_factor : Facts.frame_buffer_factor = some 3 := by decide
+/-- overflow handling is skipped exactly while `Room` holds (`cap - offsetAppend ≥ soft`), and is evaluated after every read -/
+theorem C08_fact_overflow_condition : Facts.frame_overflow_condition =
+    ["return if len(mlr.buffer)-mlr.offsetAppend >= mlr.softRecordLimit", "processBuffer ends with mlr.checkOverflow()"] := by decide
 /-- `runConnection` sizes the reader with the record limit as soft limit -/
 theorem C08_fact_soft_limit : Facts.frame_soft_is_max_record = some true := by decide
 
